@@ -177,6 +177,20 @@ def suggest_alternative(value, valid_values, option_name, componentName, default
         ))
 
 
+def unique_variable_files_in_layering_order(variable_files: Optional[List[str]]) -> List[str]:
+    """Removes duplicate paths from a list of user variable files without changing the outcome of layering them.
+
+    Variable files are layered starting from the first and working towards the last (the last one wins). A path
+    that appears more than once only matters at its last position, so this keeps the last occurrence of each path
+    and preserves the relative order of the remaining ones.
+    """
+    unique = []
+    for path in reversed(variable_files or []):
+        if path not in unique:
+            unique.insert(0, path)
+    return unique
+
+
 class FlowIRExperimentConfiguration:
     # VV: Making this a Class object enables us to load multiple packages and keep the record of the reported warnings
     _suppressed_warnings = set()
@@ -281,7 +295,7 @@ class FlowIRExperimentConfiguration:
 
         system_vars = system_vars or {}
         config_patches = config_patches or {}
-        variable_files = list(set(variable_files or []))
+        variable_files = unique_variable_files_in_layering_order(variable_files)
 
         out_errors = []
         self.file_format = file_format
@@ -482,7 +496,7 @@ class FlowIRExperimentConfiguration:
 
         systemvars = systemvars or {}
         config_patches = config_patches or {}
-        variable_files = list(set(variable_files or []))
+        variable_files = unique_variable_files_in_layering_order(variable_files)
 
         out_errors = []
 
